@@ -370,6 +370,17 @@ pub fn tp_parse(b: &[u8]) -> Result<Vec<(u64, Vec<u8>)>, &'static str> {
     Ok(out)
 }
 
+/// Serialize (id, value) pairs per RFC 9000 §18
+pub fn tp_unparse(list: &[(u64, Vec<u8>)]) -> Vec<u8> {
+    let mut out = Vec::new();
+    for (id, value) in list {
+        vi_encode(*id, &mut out);
+        vi_encode(value.len() as u64, &mut out);
+        out.extend_from_slice(value);
+    }
+    out
+}
+
 /// Outcome of the reference transport-parameter reader
 #[derive(Debug, Clone, PartialEq, Eq)]
 pub enum TpRead {
